@@ -203,6 +203,7 @@ def check_C01(ctx):
     vt.tlc_design(ctx, 'MatcherMC', label='matchers: C01/C02/C04 design invariants over the perturbation lattice')
     scen = vt.tlc_generate(ctx, 'GenWire', 'C01', 0)
     scen += vt.tlc_generate(ctx, 'GenRun', 'C01', 0)       # request level: the SYN run of a prefer_sack fallback
+    scen += [x for x in vt.tlc_generate(ctx, 'GenRun', 'Hist', 0) if x['id'].startswith('C01/')]     # the identical HTTP request served a moment ago
     wire_family(ctx, 'C01', scen,
                 rule='one scenario per (variant, strict/relaxed, identifier base, TTL range, single-field perturbation or '
                      'unsent/early/looped genuine packet, injection instant) enumerated by TLC from GenWire!C01All; executed on the real '
@@ -383,7 +384,7 @@ def check_C10(ctx):
     # request level: failing subsets, and cancellation while the end-to-end probes are being paced (GenRun!C15All): no goroutine of the
     # request outlives the call, every handle closed exactly once
     req = vt.tlc_generate(ctx, 'GenRun', 'C15', 0)
-    scen += [x for x in req if '/cancel/' in x['id'] or '/many/' in x['id']] + [x for x in req if '/cancel/' not in x['id'] and '/many/' not in x['id'] and x.get('faults')][ctx.seed % 7::7 if ctx.quick() else 1]
+    scen += [x for x in req if '/cancel/' in x['id'] or '/many/' in x['id']] + [x for x in req if '/cancel/' not in x['id'] and '/many/' not in x['id'] and '/http/' not in x['id'] and x.get('faults')][ctx.seed % 7::7 if ctx.quick() else 1]
     wire_family(ctx, 'C10', scen, rule, nontrivial=lambda s, es: any(e['event'] == 'Fault' for e in es))
     ctx.extra['rule'] = rule + '; plus ' + (WIRE_RULE % 'C10All (the k-th call of every Source/Sink operation and constructor x error class, on every protocol entry point)') + '; non-trivial = the fault fired'
     vt.write_evidence(ctx, 'model_checking', ctx_rule(ctx), exhaustive=True)
@@ -396,8 +397,8 @@ def check_C15(ctx):
                   label='runTracerouteMulti: every failing subset x every completion order; all-or-error, exact counts, termination')
     scen = vt.tlc_generate(ctx, 'GenRun', 'C15', 0)
     if ctx.quick():
-        keep = [s for s in scen if '/cancel/' in s['id'] or '/many/' in s['id']]
-        rest = [s for s in scen if '/cancel/' not in s['id'] and '/many/' not in s['id']]
+        keep = [s for s in scen if '/cancel/' in s['id'] or '/many/' in s['id'] or '/http/' in s['id']]
+        rest = [s for s in scen if not ('/cancel/' in s['id'] or '/many/' in s['id'] or '/http/' in s['id'])]
         scen = keep + rest[ctx.seed % 5::5]
     wire_family(ctx, 'C15', scen, RUN_RULE % 'C15All (protocol x query counts x failing subsets x completion orders x public-IP on/off/failing)' +
                 '; non-trivial = at least one injected failure fired or more than one query ran',
